@@ -34,6 +34,18 @@ fn main() {
                 }
                 println!("REPLAY: no violation reproduced");
             }
+            "c16_cache_race" => {
+                // thread timing is not controlled: try a few times
+                for _ in 0..20 {
+                    let c = c16::cache_race(seed, idx);
+                    if let Some(v) = c.violations.first() {
+                        println!("{}", c.desc.render());
+                        println!("REPLAY: reproduced {} {} :: {}", v.prop, v.oracle, v.msg);
+                        std::process::exit(1);
+                    }
+                }
+                println!("REPLAY: no violation reproduced in 20 runs");
+            }
             _ => {
                 println!("{}", j.render());
                 println!("REPLAY: C18 cases are self-describing (config printed above); re-run ./vcheck run C18 quick with the same VERIF_SEED");
@@ -92,6 +104,41 @@ fn main() {
             });
             for (cov, finds) in outs {
                 rep.engine("c16").merge(cov);
+                rep.add_findings(finds);
+            }
+            // clear() from a second OS thread against prepares (a few at a time: each case spins a thread)
+            let n_race = sc(60.0, 2000.0).max(1);
+            let jobs = (args.jobs / 4).max(1);
+            let outs = vh_common::parallel(jobs, move |wk| {
+                let mut cov = Coverage::default();
+                let mut finds = Vec::new();
+                let mut i = wk as u64;
+                while i < n_race {
+                    let c = c16::cache_race(seed, i);
+                    cov.evaluations += 1;
+                    cov.events += c.events;
+                    let _ = cov.distinct.insert(c.hash ^ i);
+                    let _ = cov.nontrivial.insert(c.hash ^ i);
+                    let _ = cov.schedules.insert(c.hash ^ i);
+                    for (k, v) in &c.counters {
+                        cov.add(k, *v);
+                    }
+                    if !c.violations.is_empty() {
+                        cov.bump("violating_cases");
+                    }
+                    if let Some(v) = c.violations.first() {
+                        if finds.len() < 4 {
+                            finds.push(Finding { v: v.clone(), sig: format!("C16/c16_cache_race/{}", v.oracle), replay: c.desc.clone() });
+                        }
+                    } else if cov.samples.is_empty() {
+                        cov.sample(c.desc);
+                    }
+                    i += jobs as u64;
+                }
+                (cov, finds)
+            });
+            for (cov, finds) in outs {
+                rep.engine("c16_cache_race").merge(cov);
                 rep.add_findings(finds);
             }
             std::process::exit(rep.finish(&args));
